@@ -41,7 +41,7 @@ def main(argv):
         # a timeout is believed only when reproduced
         for s in summ:
             if s["build"] == "timeout":
-                again = rb.record_domain([s["id"]], os.path.join(d, "retry"), jobs=1, shards=1, stages=False, cap=60)
+                again = rb.record_domain([s["id"]], os.path.join(d, "retry"), jobs=1, shards=1, stages=False, cap=900)
                 s2 = again[0]["summary"][0]
                 if s2["build"] != "timeout":
                     s.clear()
@@ -111,7 +111,7 @@ def main(argv):
         "distinct_nontrivial": len({json.dumps(s["id"], sort_keys=True) for s in nt}),
         "rule": "every closed CFG with <=5 nodes (all 89 655, the <=4-node part certified equal to ClosedCFG(N) by TLC, every graph checked against "
                 "the TLA+ domain predicate), seeded random 6-18 node closed CFGs, std-lib bytecode CFGs; each stage run separately; outcome judged by "
-                "TLC (NeverFails, Terminates with a 30 s cap re-tried at 60 s, Completes); non-trivial = restructuring added >=2 blocks/regions",
+                "TLC (NeverFails, Terminates with a 30 s cap, believed only when a re-run alone on the machine exceeds 900 s, Completes); non-trivial = restructuring added >=2 blocks/regions",
         "exhaustive": True, "exhaustive_scope": "closed CFGs with <=5 nodes",
         "inputs_by_domain": bydom, "excluded_inputs": excluded,
         "conformance": {"behaviours": conf["behaviours"], "primitive_events": conf["events"], "drifting_events": len(conf["drift"]), "tlc_states": conf["states"]},
